@@ -25,6 +25,7 @@ _REAL = {
     "unlink": os.unlink,
     "remove": os.remove,
     "rmdir": os.rmdir,
+    "stat": os.stat,
 }
 
 _ACTIVE: "FS | None" = None
@@ -90,12 +91,15 @@ class FS:
     """One per run.  Use as a context manager."""
 
     def __init__(self, scratch: str, rng, chunk: int = 0,
-                 short_read: bool = False, track_reads: bool = True) -> None:
+                 short_read: bool = False, track_reads: bool = True,
+                 track_stat: bool = False) -> None:
         self.scratch = os.path.realpath(scratch)
         self.rng = rng
         self.chunk = chunk  # 0 = whole writes; >0 fixed; <0 random up to -chunk
         self.short_read = short_read
         self.track_reads = track_reads
+        self.track_stat = track_stat
+        self.stat_hooks: list = []
         self.effects: list[tuple] = []
         self.hooks: list = []
         self.read_hooks: list = []
@@ -257,6 +261,23 @@ class FS:
             self.effect("rmdir", path, 0)
         return r
 
+    def _stat(self, path, *a, **kw):
+        r = None
+        try:
+            r = _REAL["stat"](path, *a, **kw)
+            return r
+        finally:
+            # existence checks are scheduling points: check-then-act races on
+            # the shared directory tree need a switch right here
+            if (not self.suspend and _ACTIVE is self and not a and
+                    "dir_fd" not in kw and not isinstance(path, int)):
+                s = S.current()
+                if (s is not None or self.stat_hooks) and self.inside(path):
+                    for h in self.stat_hooks:
+                        h(self.rel(path), os.fspath(path))
+                    if s is not None:
+                        s.yield_("fs.stat")
+
     def __enter__(self) -> "FS":
         global _ACTIVE
         assert _ACTIVE is None, "nested FS layers"
@@ -269,6 +290,8 @@ class FS:
         os.unlink = self._unlink
         os.remove = self._unlink
         os.rmdir = self._rmdir
+        if self.track_stat:
+            os.stat = self._stat
         try:
             import aiofiles.threadpool as atp
             self._atp = atp
@@ -293,6 +316,7 @@ class FS:
         os.unlink = _REAL["unlink"]
         os.remove = _REAL["remove"]
         os.rmdir = _REAL["rmdir"]
+        os.stat = _REAL["stat"]
         if self._atp is not None:
             self._atp.sync_open = self._atp_saved
         _ACTIVE = None
